@@ -44,11 +44,10 @@ def keyOf : String → Option Key
   | "any" => some .any | "scalar" => some .scalar | "numeric" => some .numeric | "int" => some .int | "float" => some .float
   | "str" => some .str | "bool" => some .bool | "bin" => some .bin | "arr" => some .arr | "hash" => some .hash
   | "coll" => some .coll | "undef" => some .undef | "dflt" => some .dflt | "regexp" => some .regexp
+  | "object" => some .obj | "type" => some .typ
   | _ => none
 
-def kindKey : Kind → Key
-  | .int => .int | .float => .float | .str => .str | .bool => .bool | .undef => .undef | .dflt => .dflt
-  | .bin => .bin | .regexp => .regexp | .arr => .arr | .hash => .hash
+def kindKey (k : Kind) : Key := k.key
 
 def strOpt : Sexp → Option (Option Str)
   | .atom "-" => some none
@@ -143,6 +142,15 @@ def execFmt (io : FloatIO) (ctx ve : Sexp) : String :=
          | .bad => "bad-op"
          | .err c => "reported " ++ codeStr c
          | .ok m => resStr (format io m v))
+      | .list (.atom "mmap" :: es) =>
+        -- a per-type format map given by the user: px.NewFormatContext3(v, hash) = mergeFormats(DefaultFormats, NewFormatMap(hash))
+        (match mapOf es with
+         | .bad => "bad-op"
+         | .err c => "reported " ++ codeStr c
+         | .ok m =>
+           -- the cyclic default tables are unrolled to a depth; the op syntax admits at most 4 entries per map
+           if mapWidth 8 m > 4 || mapDepth 8 m > 3 || !mapKeysDistinct 8 m then "out-of-model"
+           else resStr (format io (contextMap m) v))
       | _ => "bad-op"
 
 /-- `back <directive> <int>`: render, then read the text back with the Integer constructor and the letter's radix -/
@@ -159,6 +167,10 @@ def execBack (d : String) (i : Int) : String :=
     | r => "render " ++ resStr r
 
 def exec : List Sexp → String
+  | [.atom "keysub", .atom a, .atom b] =>
+    (match keyOf a, keyOf b with
+     | some a, some b => boolStr (Key.sub a b)
+     | _, _ => "bad-op")
   | [.atom "back", d, i] =>
     (match d.str?, i.int? with
      | some d, some i => execBack d i
